@@ -14,7 +14,7 @@ from vf.refmodel import HEX_EDGES_BY_AXIS, families
 from classy_blocks.base.exceptions import InconsistentGradingsError
 
 RULE = (
-    "Assemblies are cut from a jittered node lattice (<= 8 hexahedra, each in one of the 24 corner numberings, random "
+    "Assemblies are cut from a jittered node lattice (<= 8 hexahedra, the crowd cell <= 12, each in one of the 24 corner numberings, random "
     "insertion order); chops are placed per edge family computed by the harness's own union-find. The written file is "
     "parsed by an independent reader and counts are compared per shared edge (vertex-id pairs). Non-trivial: >= 2 blocks "
     "that share >= 1 edge; distinct = distinct generated case."
@@ -213,6 +213,79 @@ _SQUEEZED = [
     for rot in (0, 7, 13, 22)
 ]
 
+@st.composite
+def crowd_conflict(draw):
+    """One dissenting block inside a crowd: a 3 x 3 layer (optionally with a second layer) of which the middle cell D
+    and a random subset of its eight neighbours are present; D asks for m cells along the layer's normal, some or all of
+    the others ask for n != m.  Every neighbour shares an edge of that direction with D (the diagonal ones and the
+    arms of a 'plus' touch each other along a single edge only), so edges are shared by two, three or four blocks and
+    the conflicting pair can be any of the pairs on an edge.  Random numberings, widths, insertion orders."""
+    d = draw(st.integers(0, 2))
+    depth = draw(st.sampled_from([1, 1, 2]))
+    dims = [3, 3, 3]
+    dims[d] = depth
+    layer = draw(st.integers(0, depth - 1))
+    cross = [a for a in range(3) if a != d]
+
+    def cell_at(u, v, w):
+        ijk = [0, 0, 0]
+        ijk[cross[0]], ijk[cross[1]], ijk[d] = u, v, w
+        return lt.cell_index(dims, *ijk)
+
+    centre = cell_at(1, 1, layer)
+    ring = [cell_at(u, v, layer) for u in range(3) for v in range(3) if (u, v) != (1, 1)]
+    shape = draw(st.sampled_from(["plus", "ring", "random", "random"]))
+    if shape == "plus":
+        present = [cell_at(u, v, layer) for u, v in ((0, 1), (2, 1), (1, 0), (1, 2))]
+    elif shape == "ring":
+        present = list(ring)
+    else:
+        present = draw(st.lists(st.sampled_from(ring), min_size=2, max_size=8, unique=True))
+    extra = []
+    if depth == 2:
+        other = [cell_at(u, v, 1 - layer) for u in range(3) for v in range(3)]
+        extra = draw(st.lists(st.sampled_from(other), min_size=0, max_size=3, unique=True))
+    crowd = draw(st.permutations(present + extra))
+    # where the dissenting block is inserted: last (everything around it is there already), first or anywhere
+    where = draw(st.sampled_from(["last", "last", "first", "any"]))
+    cells = list(crowd)
+    pos = {"last": len(cells), "first": 0}.get(where)
+    if pos is None:
+        pos = draw(st.integers(0, len(cells)))
+    cells.insert(pos, centre)
+    case = {
+        "dims": dims, "widths": [[10.0 ** draw(st.floats(-0.5, 0.5)) for _ in range(dims[a])] for a in range(3)],
+        "jitter": [], "cells": cells, "orient": [draw(st.integers(0, 23)) for _ in cells], "chops": [], "mode": "conflict",
+    }
+    if draw(st.booleans()):
+        nn = (dims[0] + 1) * (dims[1] + 1) * (dims[2] + 1)
+        case["jitter"] = [draw(st.floats(-1.0, 1.0)) for _ in range(3 * nn)]
+    n = draw(st.one_of(st.integers(1, 12), st.integers(60, 1200)))
+    m = n + draw(st.sampled_from([-3, -2, -1, 1, 2, 3, 7]))
+    if m < 1:
+        m = n + 1
+    # who speaks up in the crowd: everybody, or only some (the rest gets its count from a neighbour)
+    vocal = list(present) if draw(st.booleans()) else draw(st.lists(st.sampled_from(present), min_size=1, max_size=len(present), unique=True))
+    chops = [{"cell": c, "gdir": d, "args": {"count": n}} for c in vocal]
+    chops.append({"cell": centre, "gdir": d, "args": {"count": m}})
+    fams, _ = lt.lattice_families(case)
+    for fam in fams:
+        if (centre, d) in fam:
+            continue
+        c, g = draw(st.sampled_from(fam))
+        chops.append({"cell": c, "gdir": g, "args": {"count": draw(st.integers(1, 6))}})
+    case["chops"] = list(draw(st.permutations(chops)))
+    case["conflict"] = {"family": -1, "first": [vocal[0], d], "second": [centre, d], "shape": shape, "where": where,
+                        "vocal": len(vocal), "crowd": len(present)}
+    return case
+
+
+def check_crowd(case, ctx: Ctx) -> None:
+    check_conflict(case, ctx)
+    cf = case["conflict"]
+    ctx.label("shape:" + cf["shape"], "dissenter-" + cf["where"], "all-vocal" if cf["vocal"] == cf["crowd"] else "some-silent")
+
+
 CELLS = [
     Cell("C01/success/wellposed", with_history(lt.chopped_lattice("wellposed")), check_success, 150, 8000,
          "one count chop (1-in-5 multi-section) per edge family, written once / twice / after an explicit grade(); counts "
@@ -224,4 +297,7 @@ CELLS = [
     Cell("C01/conflict", lt.chopped_lattice("conflict").filter(lambda c: c is not None), check_conflict, 200, 10000,
          "two count chops with different totals in one family: InconsistentGradingsError and no file",
          fixed_cases=_UNEVEN + _SURROUNDED + _SQUEEZED),
+    Cell("C01/conflict/crowd", crowd_conflict(), check_crowd, 300, 10000,
+         "one dissenting block among up to eight neighbours that share an edge of the direction with it (plus, ring, "
+         "random subsets; edges shared by 2-4 blocks), dissenter inserted last / first / anywhere: refused, no file"),
 ]
